@@ -4,12 +4,17 @@ import (
 	"errors"
 	"fmt"
 	"math"
+	"math/big"
 	"regexp"
 	"strconv"
 	"strings"
 )
 
-var stringToNumberParseInteger = regexp.MustCompile(`^(?:0[xX])`)
+// The StringNumericLiteral grammar of ECMA 262 5.1 - 9.3.1 (after trimming white space).
+var (
+	stringToNumberDecimal = regexp.MustCompile(`^[+-]?(?:Infinity|(?:[0-9]+\.?[0-9]*|\.[0-9]+)(?:[eE][+-]?[0-9]+)?)$`)
+	stringToNumberHex     = regexp.MustCompile(`^0[xX][0-9a-fA-F]+$`)
+)
 
 func parseNumber(value string) float64 {
 	value = strings.Trim(value, builtinStringTrimWhitespace)
@@ -18,29 +23,23 @@ func parseNumber(value string) float64 {
 		return 0
 	}
 
-	var parseFloat bool
 	switch {
-	case strings.ContainsRune(value, '.'):
-		parseFloat = true
-	case stringToNumberParseInteger.MatchString(value):
-		parseFloat = false
-	default:
-		parseFloat = true
-	}
-
-	if parseFloat {
+	case stringToNumberHex.MatchString(value):
+		integer, ok := new(big.Int).SetString(value[2:], 16)
+		if !ok {
+			return math.NaN()
+		}
+		number, _ := new(big.Float).SetInt(integer).Float64()
+		return number
+	case stringToNumberDecimal.MatchString(value):
+		// An out of range error still carries the correctly rounded result (±Inf or 0).
 		number, err := strconv.ParseFloat(value, 64)
 		if err != nil && !errors.Is(err, strconv.ErrRange) {
 			return math.NaN()
 		}
 		return number
 	}
-
-	number, err := strconv.ParseInt(value, 0, 64)
-	if err != nil {
-		return math.NaN()
-	}
-	return float64(number)
+	return math.NaN()
 }
 
 func (v Value) float64() float64 {
